@@ -513,6 +513,14 @@ func (p *Path) kyberMethod(nat *Native, name string, args []Value, sig *types.Si
 			sc.tag = constBytes(sc.grp.scalarLen, 0)
 			sc.tag[sc.grp.scalarLen-1] = BVC(1, 8)
 			return self()
+		case "SetBytes":
+			bs := bytesOf(p, args[0])
+			tag := constBytes(sc.grp.scalarLen, 0)
+			for i := 0; i < len(bs) && i < sc.grp.scalarLen; i++ {
+				tag[sc.grp.scalarLen-1-i] = bs[len(bs)-1-i]
+			}
+			sc.tag = tag
+			return self()
 		case "SetInt64":
 			v := args[0].(*Term)
 			tag := constBytes(sc.grp.scalarLen, 0)
